@@ -92,6 +92,9 @@ def run(prop, tier, seed):
         st = [x for x in walks.stratified_starts(rnd, 4 if tier == "quick" else 20, 600 if tier == "quick" else 20000, 3000 if tier == "quick" else 100000) if x["ver"] == ver]
         items = [{"op": "construct", "ver": ver, "s": esc(walks.spelled(ver, x["minor"], x["fields"])), "json": False} for x in st]
         items += [{"op": "construct", "ver": ver, "s": esc(corpus.random_vector(rnd, ver)[3]), "json": False} for _ in range(2000 if tier == "quick" else 50000)]
+        items += [{"op": "construct", "ver": ver, "s": esc(s), "json": False} for v_, s in corpus.coverage_vectors() if v_ == ver]
+        if ver == "4":
+            items += [{"op": "construct", "ver": "4", "s": esc(x[3]), "json": False} for x in corpus.lookup_cover_v4(rnd)]
         sev = record_events(items, work, name="spell")
         for e in sev:
             for k in ("re_clean", "re_rh", "asm"):
